@@ -1,6 +1,7 @@
+import Gv.Oracle.Det
 import Gv.Oracle.Dedup
 import Gv.Oracle.Loop
 /-! oracle of property C13: only the handlers it needs -/
 open Gv Gv.Oracle
 
-def main : IO Unit := runOracle [DedupOps.handle]
+def main : IO Unit := runOracle [DedupOps.handle, DetOps.handle]
